@@ -26,17 +26,19 @@ pub enum AgentCase {
     /// noise agents: tick, sigma, n traders, steps, seed  (checks grid, volumes, trader ids, quoting side of the mid, no abort)
     Noise { tick: u32, sigma: f64, p_limit: f32, p_market: f32, p_cancel: f32, n: u16, steps: u32, seed: u64 },
     /// momentum agents with harness-controlled quotes: path of (bid, ask); saturated demand
-    Momentum { path: Vec<(u32, u32)>, n: u16, decay: f64, order_ratio: f64, seed: u64 },
+    Momentum { path: Vec<(u32, u32)>, n: u16, decay: f64, order_ratio: f64, seed: u64, #[serde(default = "big_demand")] demand: f64 },
     /// multi-asset noise agents on asset 1 of a two-asset environment (tick of asset 1 given; mid off the grid when the spread is odd in ticks)
     NoiseMarket { tick: u32, bid: u32, ask: u32, sigma: f64, n: u16, steps: u32, seed: u64 },
     /// multi-asset momentum agent on asset 1 with harness-controlled quotes
-    MomentumMarket { path: Vec<(u32, u32)>, n: u16, seed: u64 },
+    MomentumMarket { path: Vec<(u32, u32)>, n: u16, seed: u64, #[serde(default = "one")] decay: f64 },
     /// rounding
     Round { p: f64, tick: u32 },
     /// random agents: tick range, steps
     Random { tick: u32, lo: u32, hi: u32, n: usize, rate: f32, steps: u32, seed: u64 },
 }
 
+fn big_demand() -> f64 { 1.0e6 }
+fn one() -> f64 { 1.0 }
 fn is_bid(s: Side) -> bool { matches!(s, Side::Bid) }
 
 fn fail(clause: &str, detail: String) -> Failure {
@@ -135,10 +137,10 @@ fn run_case_inner(c: &AgentCase) -> Vec<Failure> {
                 }
             }
         }
-        AgentCase::Momentum { path, n, decay, order_ratio, seed } => {
+        AgentCase::Momentum { path, n, decay, order_ratio, seed, demand } => {
             let mut env: Env = Env::new(0, 1, 1_000_000, true);
             let mut rng = Xoroshiro128StarStar::seed_from_u64(*seed);
-            let params = MomentumParams { tick_size: 1, p_cancel: 0.0, trade_vol: 10, decay: *decay, demand: 1.0e6, scale: 1.0, order_ratio: *order_ratio, price_dist_mu: 0.0, price_dist_sigma: 0.5 };
+            let params = MomentumParams { tick_size: 1, p_cancel: 0.0, trade_vol: 10, decay: *decay, demand: *demand, scale: 1.0, order_ratio: *order_ratio, price_dist_mu: 0.0, price_dist_sigma: 0.5 };
             let mut ag = MomentumAgent::new(100, *n, params);
             let mut last: Option<f64> = None;
             let mut m = 0.0f64;
@@ -153,7 +155,7 @@ fn run_case_inner(c: &AgentCase) -> Vec<Failure> {
                 last = Some(mid);
                 let markets: Vec<&Order> = new.iter().filter(|o| (is_bid(o.side) && o.price == u32::MAX) || (!is_bid(o.side) && o.price == 0)).collect();
                 let (buys, sells) = (markets.iter().filter(|o| is_bid(o.side)).count(), markets.iter().filter(|o| !is_bid(o.side)).count());
-                let saturated = m.abs() >= 1.0;   // demand 1e6: |p| >= 1 for every |M| of at least a tick
+                let saturated = m.abs() >= 4.0 && *demand >= 1.1 * f64::from(*n);   // |tanh(M)| > 0.999: p = demand * tanh / n >= 1
                 if saturated && m > 0.0 && (buys != *n as usize || sells != 0) {
                     out.push(fail("C17.buys_when_rising", format!("step {}: M = {} > 0 but market orders (buys, sells) = ({}, {}) from {} traders", k, m, buys, sells, n)));
                 }
@@ -205,12 +207,13 @@ fn run_case_inner(c: &AgentCase) -> Vec<Failure> {
                 }
             }
         }
-        AgentCase::MomentumMarket { path, n, seed } => {
+        AgentCase::MomentumMarket { path, n, seed, decay } => {
             let mut env: MarketEnv<2, 3> = MarketEnv::new(0, [1, 1], 1_000_000, true);
             let mut rng = Xoroshiro128StarStar::seed_from_u64(*seed);
-            let params = MomentumParams { tick_size: 1, p_cancel: 0.0, trade_vol: 10, decay: 1.0, demand: 1.0e6, scale: 1.0, order_ratio: 0.0, price_dist_mu: 0.0, price_dist_sigma: 0.5 };
+            let params = MomentumParams { tick_size: 1, p_cancel: 0.0, trade_vol: 10, decay: *decay, demand: 1.0e6, scale: 1.0, order_ratio: 0.0, price_dist_mu: 0.0, price_dist_sigma: 0.5 };
             let mut ag = MomentumMarketAgent::new(100, *n, 1, params);
             let mut last: Option<f64> = None;
+            let mut mm = 0.0f64;
             for (k, (b, a)) in path.iter().enumerate() {
                 let ids: Vec<usize> = (0..env.get_orders(1).len()).collect();
                 for i in ids { if env.order_status((1, i)) == Status::Active { env.cancel_order((1, i)); } }
@@ -222,9 +225,15 @@ fn run_case_inner(c: &AgentCase) -> Vec<Failure> {
                 let n0 = env.get_orders(1).len();
                 ag.update(&mut env, &mut rng);
                 let new: Vec<Order> = env.get_orders(1)[n0..].iter().filter(|o| o.trader_id >= 100).map(|o| **o).collect();
-                let m = match last { Some(p) => mid - p, None => 0.0 };
+                mm = match last { Some(p) => mm * (1.0 - decay) + decay * (mid - p), None => 0.0 };
+                let m = mm;
                 last = Some(mid);
-                let (buys, sells) = (new.iter().filter(|o| is_bid(o.side)).count(), new.iter().filter(|o| !is_bid(o.side)).count());
+                // order ratio 0: only MARKET orders may appear (a limit order would be an action of probability 0)
+                let limits = new.iter().filter(|o| !((is_bid(o.side) && o.price == u32::MAX) || (!is_bid(o.side) && o.price == 0))).count();
+                if limits > 0 {
+                    out.push(fail("C16.zero_probability_never", format!("step {}: order ratio 0 but {} limit orders were placed", k, limits)));
+                }
+                let (buys, sells) = (new.iter().filter(|o| is_bid(o.side) && o.price == u32::MAX).count(), new.iter().filter(|o| !is_bid(o.side) && o.price == 0).count());
                 if m > 0.0 && (buys != *n as usize || sells != 0) {
                     out.push(fail("C17.buys_when_rising", format!("step {}: multi-asset agent, M = {} > 0 but (buys, sells) = ({}, {}) from {} traders", k, m, buys, sells, n)));
                 }
@@ -283,7 +292,7 @@ pub fn search_agents(prop: &str, seed: u64) -> Option<(AgentCase, Vec<Failure>)>
     let mut cases: Vec<AgentCase> = vec![];
     if prop == "C16" || prop == "any" {
         for draw in [0u32, 1, 255, 256, 0x8000_0000, u32::MAX] {
-            for p in [0.0f32, 1.0] {
+            for p in [0.0f32, 1.0, 1.5] {
                 cases.push(AgentCase::CancelProb { p, n_orders: 3, draw });
             }
         }
@@ -305,15 +314,18 @@ pub fn search_agents(prop: &str, seed: u64) -> Option<(AgentCase, Vec<Failure>)>
     }
     if prop == "C17" || prop == "C16" || prop == "any" {
         for (decay, ratio) in [(1.0f64, 0.0f64), (1.0, 1.0), (0.5, 0.0)] {
-            cases.push(AgentCase::Momentum { path: vec![(100, 102), (90, 92), (80, 82), (95, 97), (95, 97), (110, 112), (100, 102)], n: 3, decay, order_ratio: ratio, seed });
-            cases.push(AgentCase::Momentum { path: vec![(1000, 1002), (1010, 1012), (1020, 1022), (1000, 1002)], n: 2, decay, order_ratio: ratio, seed: seed + 1 });
+            cases.push(AgentCase::Momentum { path: vec![(100, 102), (90, 92), (80, 82), (95, 97), (95, 97), (110, 112), (100, 102)], n: 3, decay, order_ratio: ratio, seed, demand: 1.0e6 });
+            cases.push(AgentCase::Momentum { path: vec![(1000, 1002), (1010, 1012), (1020, 1022), (1000, 1002)], n: 2, decay, order_ratio: ratio, seed: seed + 1, demand: 1.0e6 });
         }
         // decay < 1: the carried-over signal (M returns to exactly zero, then a flat step)
-        cases.push(AgentCase::Momentum { path: vec![(1000, 1002), (1010, 1012), (1005, 1007), (1005, 1007), (1005, 1007)], n: 2, decay: 0.5, order_ratio: 0.0, seed });
-        cases.push(AgentCase::Momentum { path: vec![(1000, 1002), (980, 982), (990, 992), (990, 992)], n: 2, decay: 0.5, order_ratio: 0.0, seed });
-        cases.push(AgentCase::Momentum { path: vec![(1000, 1002), (1032, 1034), (1032, 1034), (1032, 1034)], n: 2, decay: 0.5, order_ratio: 0.0, seed });
-        cases.push(AgentCase::MomentumMarket { path: vec![(995, 1005), (996, 1005), (996, 1006), (995, 1006), (990, 1000), (1000, 1010)], n: 2, seed });
-        cases.push(AgentCase::MomentumMarket { path: vec![(100, 102), (90, 92), (110, 112), (110, 112)], n: 3, seed });
+        cases.push(AgentCase::Momentum { path: vec![(1000, 1002), (1010, 1012), (1005, 1007), (1005, 1007), (1005, 1007)], n: 2, decay: 0.5, order_ratio: 0.0, seed, demand: 1.0e6 });
+        cases.push(AgentCase::Momentum { path: vec![(1000, 1002), (980, 982), (990, 992), (990, 992)], n: 2, decay: 0.5, order_ratio: 0.0, seed, demand: 1.0e6 });
+        cases.push(AgentCase::Momentum { path: vec![(1000, 1002), (1032, 1034), (1032, 1034), (1032, 1034)], n: 2, decay: 0.5, order_ratio: 0.0, seed, demand: 1.0e6 });
+        cases.push(AgentCase::MomentumMarket { path: vec![(995, 1005), (996, 1005), (996, 1006), (995, 1006), (990, 1000), (1000, 1010)], n: 2, seed, decay: 1.0 });
+        cases.push(AgentCase::MomentumMarket { path: vec![(100, 102), (90, 92), (110, 112), (110, 112)], n: 3, seed, decay: 1.0 });
+        cases.push(AgentCase::MomentumMarket { path: vec![(1000, 1002), (1032, 1034), (1028, 1030), (1028, 1030), (1000, 1002)], n: 2, seed, decay: 0.5 });
+        // barely saturated demand: the probability is |demand * tanh(scale * M)| / n with n the NUMBER of traders
+        cases.push(AgentCase::Momentum { path: vec![(1000, 1002), (1020, 1022), (1000, 1002), (1030, 1032)], n: 3, decay: 1.0, order_ratio: 0.0, seed, demand: 3.6 });
     }
     for c in cases {
         let f = run_case(&c);
